@@ -40,7 +40,7 @@ type Interp struct {
 
 	globals map[int]*Cell
 	depth   int
-	modSite map[int]*MapV
+	modSite map[string]*MapV // one table per builtin module (all import expressions share it)
 }
 
 type frame struct {
@@ -159,7 +159,7 @@ func Run(prog *lang.Program, inputs map[string]Value, pol Policy, cfg Config) (o
 	}
 	it := &Interp{Pol: pol, Prog: prog, Info: info, Budget: cfg.Budget, MaxDepthLim: cfg.MaxDepth,
 		MaxAllocs: cfg.MaxAllocs, MaxStringLen: cfg.MaxStringLen, MaxBytesLen: cfg.MaxBytesLen,
-		HostMods: cfg.HostMods, globals: map[int]*Cell{}, modSite: map[int]*MapV{}}
+		HostMods: cfg.HostMods, globals: map[int]*Cell{}, modSite: map[string]*MapV{}}
 	if it.Budget == 0 {
 		it.Budget = 50000
 	}
@@ -650,7 +650,7 @@ func (it *Interp) importMod(e *lang.Node, fr *frame) Value {
 		return Undef
 	}
 	if attrs, ok := it.HostMods[e.S]; ok {
-		if m, ok := it.modSite[e.ID]; ok {
+		if m, ok := it.modSite[e.S]; ok {
 			return m
 		}
 		mm := make(map[string]Value, len(attrs)+1)
@@ -659,7 +659,7 @@ func (it *Interp) importMod(e *lang.Node, fr *frame) Value {
 		}
 		mm["__module_name__"] = StrV(e.S)
 		m := &MapV{Ms: &MapStore{M: mm}, Imm: true}
-		it.modSite[e.ID] = m
+		it.modSite[e.S] = m
 		return m
 	}
 	panic("ref: import of unknown module " + e.S)
